@@ -5,6 +5,7 @@ CONSTANTS Paths = {1, 2}
           MaxActions = 8
           KeyModel = 1
           VStep = {1, 2}
+          TimeChoices = {0, 1, 2, 3, 4}
           WithX = TRUE
           EmitOn = TRUE
           Sim = TRUE
